@@ -264,6 +264,16 @@ func genLiteral(t *rapid.T) litCase {
 		text, kind = "0"+string(b), "legacy-octal"
 	case k < 18:
 		text, kind = rapid.SampledFrom([]string{"0", "0.", "0.0", ".0", "0e0", "0e5", "0E-5", "0.e1", "0x0", "00", "000", "07", "1", "9007199254740993", "9007199254740992", "9223372036854775807", "9223372036854775808", "18446744073709551616", "1152921504606846976", "123456789012345678", "0x7fffffffffffffff", "0x8000000000000000", "0x20000000000001", "0777777777777777777777", "01000000000000000000000", "1e21", "1e-7", "999999999999999900000", "5e-324", "2.4703282292062327e-324", "2.4703282292062328e-324", "1.7976931348623158e308", "1.7976931348623159e308"}).Draw(t, "lspecial"), "special"
+	case k < 19:
+		// a literal directly followed by a keyword operator: "3in[]" is a SyntaxError (7.8.3), "3 in[]" is not
+		a, _ := genDecimalCore(t)
+		if len(a) > 30 || a == "Infinity" || (len(a) > 1 && a[0] == '0' && a[1] >= '0' && a[1] <= '9') {
+			a = "3"
+		}
+		if rapid.IntRange(0, 3).Draw(t, "hexrecv") == 0 {
+			a = "0x1f"
+		}
+		text, kind = a+rapid.SampledFrom([]string{"in[]", "in{}", "instanceof Object", "in[1,2,3]"}).Draw(t, "kw"), "keyword-follows"
 	default:
 		// small sums and differences of literals: the tokenizer must split them correctly
 		a, _ := genDecimalCore(t)
@@ -274,7 +284,7 @@ func genLiteral(t *rapid.T) litCase {
 		text, kind = a+rapid.SampledFrom([]string{"+", "-", "+-", "-+", "+.", "-."}).Draw(t, "op")+b, "expression"
 	}
 	mut := "none"
-	if rapid.IntRange(0, 9).Draw(t, "lmut") < 4 && len(text) < 120 {
+	if kind != "keyword-follows" && rapid.IntRange(0, 9).Draw(t, "lmut") < 4 && len(text) < 120 {
 		var u []uint16
 		u, mut = mutate16(t, harness.UTF16(text), litMutChars)
 		text, _ = harness.FromUTF16(u)
@@ -284,8 +294,8 @@ func genLiteral(t *rapid.T) litCase {
 
 var literalFacet = harness.Register(&harness.Facet[litCase]{
 	Name: "numeric-literal",
-	Rule: "rapid: source texts: DecimalLiteral alternatives (digits up to 1100 characters, leading/trailing dot, exponent forms up to ±400 and beyond, texts derived from doubles incl. exact midpoints), HexIntegerLiteral up to 30 digits, legacy octal 0[0-7]+ (B.1.1, which otto supports) up to 26 digits, special values, and short sums/differences of literals; 40% get one edit over [0-9 . e E + - x X _ a f $ n p b o]; oracle: own tokenizer for this fragment — exact value (rounded half-even) of every literal, IEEE sum for + and −, and SyntaxError when a literal is followed by an IdentifierStart or DecimalDigit, literals are adjacent, an operator dangles or a '.' stands alone; String(literal) must be ToString of the double; texts with identifiers, member access, ++/-- or 08/09 are discarded (counted); non-trivial = not a decimal integer of at most 9 digits; distinct by text",
-	Quick: 7000, Thorough: 120000,
+	Rule: "rapid: source texts: DecimalLiteral alternatives (digits up to 1100 characters, leading/trailing dot, exponent forms up to ±400 and beyond, texts derived from doubles incl. exact midpoints), HexIntegerLiteral up to 30 digits, legacy octal 0[0-7]+ (B.1.1, which otto supports) up to 26 digits, special values, short sums/differences of literals, and literals directly followed by in / instanceof (SyntaxError by the 7.8.3 follow rule); 40% get one edit over [0-9 . e E + - x X _ a f $ n p b o]; oracle: own tokenizer for this fragment — exact value (rounded half-even) of every literal, IEEE sum for + and −, and SyntaxError when a literal is followed by an IdentifierStart or DecimalDigit, literals are adjacent, an operator dangles or a '.' stands alone; String(literal) must be ToString of the double; texts with identifiers, member access, ++/-- or 08/09 are discarded (counted); non-trivial = not a decimal integer of at most 9 digits; distinct by text",
+	Quick: 7000, Thorough: 100000,
 	Gen:   genLiteral,
 	Check: checkLiteral,
 })
